@@ -5,6 +5,7 @@ import (
 	"errors"
 	"fmt"
 	"net"
+	"runtime"
 	"strconv"
 	"strings"
 	"sync"
@@ -170,11 +171,27 @@ func c06gen(g *gen, tier string, w *bufio.Writer) {
 	}
 }
 
+var c06baseGoroutines = -1
+
+// c06quiesce waits until every goroutine started by DB.Reload has finished, except the `blocked`
+// ones parked inside the fake's Reload (a reload goroutine still runs unref/Close after the fake's
+// Reload has returned).
+func c06quiesce(blocked int) {
+	deadline := time.Now().Add(3 * time.Second)
+	for runtime.NumGoroutine() > c06baseGoroutines+blocked && time.Now().Before(deadline) {
+		time.Sleep(20 * time.Microsecond)
+	}
+}
+
 func c06run(line string) (string, string) {
 	f := strings.Fields(line)
 	if f[0] != "life" {
 		return "bad-op", "-"
 	}
+	if c06baseGoroutines < 0 {
+		c06baseGoroutines = runtime.NumGoroutine()
+	}
+	c06quiesce(0)
 	world := &c06world{backends: []*c06bstate{{}}, valOk: true}
 	h, err := dnsserver.NewFBDNSDBBasic(dnsserver.HandlerConfig{},
 		dnsserver.DBConfig{Path: "p0", Driver: "fake", ValidationKey: []byte("vk"), ReloadTimeout: 10 * time.Second},
@@ -204,10 +221,15 @@ func c06run(line string) (string, string) {
 		}
 		_ = h.Reload(sig)
 		<-sc.started
+		if !block {
+			<-sc.done
+			c06quiesce(len(pending))
+		}
 		return sc
 	}
 	waitSettled := func(sc *c06script, expectCloseOf int) {
 		<-sc.done
+		c06quiesce(len(pending))
 		deadline := time.Now().Add(2 * time.Second)
 		for time.Now().Before(deadline) {
 			world.mu.Lock()
@@ -329,6 +351,7 @@ func c06run(line string) (string, string) {
 		for _, sc := range pending {
 			close(sc.block)
 		}
+		c06quiesce(0)
 	}()
 	verdict := probe
 	bs := summary
